@@ -158,6 +158,8 @@ class TLV:
             key = tail.pop(0)
             if expected and key not in expected:
                 break
+            if len(tail) == 0:
+                raise TlvParseException(f"Not enough data for a length byte while decoding '{ba}'")
             length = tail.pop(0)
             value = tail[:length]
             if length != len(value):
